@@ -41,80 +41,119 @@ def _tags(tree):
 
 
 def encoder_layouts(tree, fields, tags):
-    """record type -> (tag bytes, [(kind, field)]) with kind in be4 / raw / utf8"""
+    """record type -> (tag bytes, [(kind, field)]) with kind in be4 / raw / utf8.
+    encode_record is evaluated per record type: isinstance(r, T) tests are decided, everything else followed both ways."""
+    from ..cfg import build as _b
+    from ..astutil import concat_terms
     fn = tree.func(CON, None, "encode_record")
     r = params(fn, False)[0]
+    g = _b(fn, split=True)
+    tested = set()
+    for n in ast.walk(fn):
+        if isinstance(n, ast.Call) and dotted(n.func) == "isinstance" and len(n.args) == 2 and dotted(n.args[0]) == r and dotted(n.args[1]):
+            tested.add(dotted(n.args[1]))
     out = {}
-    for st in fn.body:
-        if isinstance(st, ast.If) and isinstance(st.test, ast.Call) and dotted(st.test.func) == "isinstance" and dotted(st.test.args[0]) == r:
-            rtype = dotted(st.test.args[1])
-            rets = [x for x in st.body if isinstance(x, ast.Return)]
-            if len(rets) != 1:
-                raise AnalysisError("encode_record branch for %s has no single return" % rtype)
-            terms = _terms(rets[0].value)
-            tag = tags.get(dotted(terms[0])) if dotted(terms[0]) else const(terms[0])
-            lay = []
-            for t in terms[1:]:
-                if isinstance(t, ast.Call) and dotted(t.func) == "to_be4" and dotted(t.args[0]) and dotted(t.args[0]).startswith(r + "."):
-                    lay.append(("be4", dotted(t.args[0]).split(".", 1)[1]))
-                elif isinstance(t, ast.Call) and isinstance(t.func, ast.Attribute) and t.func.attr == "encode" and dotted(t.func.value) \
-                        and str(const(t.args[0]) if t.args else "utf-8").lower().replace("-", "") == "utf8":
-                    lay.append(("utf8", dotted(t.func.value).split(".", 1)[1]))
-                elif dotted(t) and dotted(t).startswith(r + "."):
-                    lay.append(("raw", dotted(t).split(".", 1)[1]))
-                else:
-                    lay.append(("?", ast.unparse(t)))
-            out[rtype] = (tag, lay)
+    for rtype in sorted(tested):
+        def oracle(test, rtype=rtype):
+            if isinstance(test, ast.Call) and dotted(test.func) == "isinstance" and len(test.args) == 2 and dotted(test.args[0]) == r \
+                    and dotted(test.args[1]):
+                return dotted(test.args[1]) == rtype
+            return None
+        vals = []
+        for nodes, end in g.paths_under(oracle):
+            if end != 'exit':
+                continue
+            rets = [x for x in nodes if isinstance(g.stmt[x], ast.Return)]
+            if len(rets) == 1 and g.stmt[rets[0]].value is not None:
+                vals.append(g.subst_env(g.stmt[rets[0]].value, g.path_env(nodes, rets[0])))
+        if len({ast.dump(v) for v in vals}) != 1:
+            raise AnalysisError("encode_record has no single return value for %s" % rtype)
+        terms = concat_terms(vals[0])
+        tag = tags.get(dotted(terms[0])) if dotted(terms[0]) else const(terms[0])
+        lay = []
+        for t in terms[1:]:
+            if isinstance(t, ast.Call) and dotted(t.func) == "to_be4" and dotted(t.args[0]) and dotted(t.args[0]).startswith(r + "."):
+                lay.append(("be4", dotted(t.args[0]).split(".", 1)[1]))
+            elif isinstance(t, ast.Call) and isinstance(t.func, ast.Attribute) and t.func.attr == "encode" and dotted(t.func.value) \
+                    and str(const(t.args[0]) if t.args else "utf-8").lower().replace("-", "") == "utf8":
+                lay.append(("utf8", dotted(t.func.value).split(".", 1)[1]))
+            elif dotted(t) and dotted(t).startswith(r + "."):
+                lay.append(("raw", dotted(t).split(".", 1)[1]))
+            else:
+                lay.append(("?", ast.unparse(t)))
+        out[rtype] = (tag, lay)
     return out
 
 
 def _terms(node):
-    if isinstance(node, ast.BinOp) and isinstance(node.op, ast.Add):
-        return _terms(node.left) + _terms(node.right)
-    return [node]
+    from ..astutil import concat_terms
+    return concat_terms(node)
 
 
 def decoder_layouts(tree, fields, tags):
-    """record type -> (tag, [(kind, field, lo, hi)])"""
+    """record type -> (tag, [(kind, field, lo, hi)]).  parse_record is evaluated per tag value."""
+    from ..cfg import build as _b
     fn = tree.func(CON, None, "parse_record")
     p = params(fn, False)[0]
-    out = {}
-    mt = [n for n in fn.body if isinstance(n, ast.Assign) and isinstance(n.targets[0], ast.Name) and slice_bounds(n.value)]
-    if len(mt) != 1 or eval_int(slice_bounds(mt[0].value)[1]) != 0 or eval_int(slice_bounds(mt[0].value)[2]) != 1:
+    g = _b(fn, split=True)
+
+    def is_tag_expr(e):
+        sb = slice_bounds(e)
+        return sb is not None and isinstance(sb[0], ast.Name) and sb[0].id == p and (eval_int(sb[1]) if sb[1] is not None else 0) == 0 \
+            and eval_int(sb[2]) == 1
+    mt = [n for n in ast.walk(fn) if isinstance(n, ast.Assign) and isinstance(n.targets[0], ast.Name) and is_tag_expr(n.value)]
+    if len(mt) != 1:
         raise AnalysisError("parse_record does not take the tag from plaintext[0:1]")
     tagvar = mt[0].targets[0].id
-    for st in fn.body:
-        if isinstance(st, ast.If) and isinstance(st.test, ast.Compare) and isinstance(st.test.left, ast.Name) and st.test.left.id == tagvar \
-                and isinstance(st.test.ops[0], ast.Eq):
-            tag = tags.get(dotted(st.test.comparators[0])) if dotted(st.test.comparators[0]) else const(st.test.comparators[0])
-            rets = [x for x in st.body if isinstance(x, ast.Return)]
-            if len(rets) != 1 or not isinstance(rets[0].value, ast.Call):
-                raise AnalysisError("parse_record branch for tag %r has no single constructor return" % tag)
-            ctor = rets[0].value
-            rtype = dotted(ctor.func)
-            fl = fields.get(rtype)
-            if fl is None or len(ctor.args) != len(fl) or ctor.keywords:
-                raise AnalysisError("parse_record: constructor %s does not match its namedtuple definition" % rtype)
-            lay = []
-            for fieldname, a in zip(fl, ctor.args):
-                v = a
-                if isinstance(a, ast.Name):
-                    defs = [x.value for x in st.body if isinstance(x, ast.Assign) and isinstance(x.targets[0], ast.Name) and x.targets[0].id == a.id]
-                    v = defs[0] if len(defs) == 1 else a
-                kind = "raw"
-                inner = v
-                if isinstance(v, ast.Call) and dotted(v.func) == "from_be4":
-                    kind, inner = "be4", v.args[0]
-                elif isinstance(v, ast.Call) and dotted(v.func) == "str" and len(v.args) == 2 and str(const(v.args[1])).lower().replace("-", "") == "utf8":
-                    kind, inner = "utf8", v.args[0]
-                elif isinstance(v, ast.Call) and isinstance(v.func, ast.Attribute) and v.func.attr == "decode":
-                    kind, inner = "utf8", v.func.value
-                sb = slice_bounds(inner)
-                if sb is None or not (isinstance(sb[0], ast.Name) and sb[0].id == p):
-                    lay.append(("?", fieldname, None, None))
-                else:
-                    lay.append((kind, fieldname, eval_int(sb[1]) if sb[1] is not None else 0, eval_int(sb[2]) if sb[2] is not None else None))
-            out[rtype] = (tag, lay)
+
+    def tag_of(e):
+        return tags.get(dotted(e)) if dotted(e) else const(e)
+    cmp_tags = []
+    for n in ast.walk(fn):
+        if isinstance(n, ast.Compare) and len(n.ops) == 1 and isinstance(n.ops[0], (ast.Eq, ast.NotEq)):
+            for a, b in ((n.left, n.comparators[0]), (n.comparators[0], n.left)):
+                if isinstance(a, ast.Name) and a.id == tagvar and isinstance(tag_of(b), bytes):
+                    cmp_tags.append(tag_of(b))
+    out = {}
+    for tag in sorted(set(cmp_tags)):
+        def oracle(test, tag=tag):
+            if isinstance(test, ast.Compare) and len(test.ops) == 1 and isinstance(test.ops[0], (ast.Eq, ast.NotEq)):
+                for a, b in ((test.left, test.comparators[0]), (test.comparators[0], test.left)):
+                    if isinstance(a, ast.Name) and a.id == tagvar and isinstance(tag_of(b), bytes):
+                        eq = tag_of(b) == tag
+                        return eq if isinstance(test.ops[0], ast.Eq) else (not eq)
+            return None
+        ctors = []
+        for nodes, end in g.paths_under(oracle):
+            if end != 'exit':
+                continue
+            rets = [x for x in nodes if isinstance(g.stmt[x], ast.Return)]
+            if len(rets) == 1 and g.stmt[rets[0]].value is not None:
+                ctors.append(g.subst_env(g.stmt[rets[0]].value, g.path_env(nodes, rets[0])))
+        if len({ast.dump(c) for c in ctors}) != 1 or not isinstance(ctors[0], ast.Call):
+            raise AnalysisError("parse_record branch for tag %r has no single constructor return" % tag)
+        ctor = ctors[0]
+        rtype = dotted(ctor.func)
+        fl = fields.get(rtype)
+        if fl is None or len(ctor.args) != len(fl) or ctor.keywords:
+            raise AnalysisError("parse_record: constructor %s does not match its namedtuple definition" % rtype)
+        lay = []
+        for fieldname, v in zip(fl, ctor.args):
+            kind = "raw"
+            inner = v
+            if isinstance(v, ast.Call) and dotted(v.func) == "from_be4":
+                kind, inner = "be4", v.args[0]
+            elif isinstance(v, ast.Call) and dotted(v.func) == "str" and len(v.args) == 2 and str(const(v.args[1])).lower().replace("-", "") == "utf8":
+                kind, inner = "utf8", v.args[0]
+            elif isinstance(v, ast.Call) and isinstance(v.func, ast.Attribute) and v.func.attr == "decode" \
+                    and str(const(v.args[0]) if v.args else "utf-8").lower().replace("-", "") == "utf8":
+                kind, inner = "utf8", v.func.value
+            sb = slice_bounds(inner)
+            if sb is None or not (isinstance(sb[0], ast.Name) and sb[0].id == p):
+                lay.append(("?", fieldname, None, None))
+            else:
+                lay.append((kind, fieldname, eval_int(sb[1]) if sb[1] is not None else 0, eval_int(sb[2]) if sb[2] is not None else None))
+        out[rtype] = (tag, lay)
     return out
 
 
@@ -169,8 +208,16 @@ def r1(tree, rep):
             _ping_id_width(tree, rep, rt, f, width)
     # to_be4 / from_be4
     tb, fb = tree.func(ENC, None, "to_be4"), tree.func(ENC, None, "from_be4")
-    fm1 = [const(c.args[0]) for c in ast.walk(tb) if isinstance(c, ast.Call) and dotted(c.func) == "struct.pack"]
-    fm2 = [const(c.args[0]) for c in ast.walk(fb) if isinstance(c, ast.Call) and dotted(c.func) == "struct.unpack"]
+    structs = {k: const(v.args[0]) for k, v in tree.module_constants(ENC).items()
+               if isinstance(v, ast.Call) and dotted(v.func) == "struct.Struct" and v.args}
+
+    def fmts(fn, meth):
+        out = [const(c.args[0]) for c in ast.walk(fn) if isinstance(c, ast.Call) and dotted(c.func) == "struct." + meth]
+        # a precompiled struct.Struct(fmt) constant:  _BE4.pack(v) / _BE4.unpack(b)
+        out += [structs[c.func.value.id] for c in ast.walk(fn) if isinstance(c, ast.Call) and isinstance(c.func, ast.Attribute)
+                and c.func.attr == meth and isinstance(c.func.value, ast.Name) and c.func.value.id in structs]
+        return out
+    fm1, fm2 = fmts(tb, "pack"), fmts(fb, "unpack")
     rep.check("C12.R1", "to_be4/from_be4 use the same 4-byte big-endian struct format", fm1 == fm2 == [">L"] or (fm1 == fm2 and len(fm1) == 1 and fm1[0] in (">L", ">I", "!L", "!I")),
               ENC, key="C12.R1:be4-format", what="to_be4 packs %s, from_be4 unpacks %s" % (fm1, fm2))
 
@@ -215,6 +262,9 @@ def _callers_pass_width(tree, fname, argpos, width, depth=2):
                 a = c.args[argpos]
                 from ..astutil import enclosing_function
                 fn = enclosing_function(c)
+                if isinstance(a, ast.Name) and fn is not None and a.id not in params(fn):
+                    from ..astutil import resolve_local as _rl
+                    a = _rl(fn, a)
                 if isinstance(a, ast.Call) and dotted(a.func) == "os.urandom" and eval_int(a.args[0]) == width:
                     continue
                 if dotted(a) and dotted(a).endswith(".ping_id"):
@@ -226,6 +276,79 @@ def _callers_pass_width(tree, fname, argpos, width, depth=2):
     return ok_all and found > 0
 
 
+def _chunking_ok(fn, K, op):
+    """len(whole) <= K: one op(whole); otherwise op over whole[s:s+K] for s = 0, K, 2K, .. < len(whole), results kept in order.
+    Accepted loop spellings: `s = 0; while s < len(whole): ..; s += K` and `for s in range(0, len(whole), K)`."""
+    from ..cfg import cmp_atom
+    g = build(fn, split=True)
+
+    def len_arg(e):
+        if isinstance(e, ast.Name):
+            e = expand_flow(fn, e, depth=1)
+        if isinstance(e, ast.Call) and dotted(e.func) == "len" and len(e.args) == 1:
+            return e.args[0]
+        return None
+    opname = "self._noise." + op
+    loops = [n for n in ast.walk(fn) if isinstance(n, (ast.While, ast.For))]
+    if len(loops) != 1:
+        return False
+    lp = loops[0]
+    in_loop = {id(x) for b in lp.body for x in ast.walk(b)}
+    ops_in = [c for c in ast.walk(fn) if isinstance(c, ast.Call) and dotted(c.func) == opname and id(c) in in_loop]
+    ops_out = [c for c in ast.walk(fn) if isinstance(c, ast.Call) and dotted(c.func) == opname and id(c) not in in_loop]
+    if len(ops_in) != 1 or len(ops_out) != 1 or len(ops_out[0].args) != 1:
+        return False
+    whole = ops_out[0].args[0]
+    # the loop variable and its range
+    if isinstance(lp, ast.While):
+        t = lp.test
+        if not (isinstance(t, ast.Compare) and len(t.ops) == 1 and isinstance(t.ops[0], ast.Lt) and isinstance(t.left, ast.Name)):
+            return False
+        sv = t.left.id
+        bound = len_arg(t.comparators[0])
+        steps = [x for x in lp.body if isinstance(x, ast.AugAssign) and isinstance(x.target, ast.Name) and x.target.id == sv and isinstance(x.op, ast.Add)]
+        inits = [x for x in ast.walk(fn) if isinstance(x, ast.Assign) and isinstance(x.targets[0], ast.Name) and x.targets[0].id == sv]
+        if not (bound is not None and same_expr(bound, whole) and len(steps) == 1 and dotted(steps[0].value) == K
+                and len(inits) == 1 and eval_int(inits[0].value) == 0):
+            return False
+    else:
+        it = lp.iter
+        if not (isinstance(lp.target, ast.Name) and isinstance(it, ast.Call) and dotted(it.func) == "range" and len(it.args) == 3
+                and eval_int(it.args[0]) == 0 and dotted(it.args[2]) == K and not lp.orelse):
+            return False
+        sv = lp.target.id
+        bound = len_arg(it.args[1])
+        if not (bound is not None and same_expr(bound, whole)):
+            return False
+        if any(isinstance(x, ast.Name) and x.id == sv and isinstance(x.ctx, ast.Store) for b in lp.body for x in ast.walk(b)):
+            return False
+    # the chunk: whole[sv:sv+K], handed to the op
+    sl = [x for b in lp.body for x in ast.walk(b) if isinstance(x, ast.Subscript) and slice_bounds(x)]
+    if len(sl) != 1:
+        return False
+    base, lo, hi = slice_bounds(sl[0])
+    if not (same_expr(base, whole) and isinstance(lo, ast.Name) and lo.id == sv and isinstance(hi, ast.BinOp) and isinstance(hi.op, ast.Add)
+            and isinstance(hi.left, ast.Name) and hi.left.id == sv and dotted(hi.right) == K):
+        return False
+    a = ops_in[0].args[0] if len(ops_in[0].args) == 1 else None
+    if isinstance(a, ast.Name):
+        defs = [x.value for b in lp.body for x in ast.walk(b) if isinstance(x, ast.Assign) and isinstance(x.targets[0], ast.Name)
+                and x.targets[0].id == a.id]
+        a = defs[0] if len(defs) == 1 else None
+    if a is not sl[0]:
+        return False
+    if any(isinstance(x, (ast.Break, ast.Continue, ast.Return, ast.If)) for b in lp.body for x in ast.walk(b)):
+        return False
+    # threshold: the single-packet op only when len(whole) <= K, the loop only when it is larger
+    def is_len_whole(e):
+        w = len_arg(e)
+        return w is not None and same_expr(w, whole)
+    fits = cmp_atom(is_len_whole, lambda e: dotted(e) == K, (ast.LtE,), (ast.Gt,))
+    single_n = g.call_nodes(lambda c: c is ops_out[0])
+    loop_n = [g.node_of(lp)]
+    return bool(g.cond_edges(fits, True)) and not g.only_when(single_n, fits, True) and not g.only_when(loop_n, fits, False)
+
+
 def r2(tree, rep):
     consts = tree.module_constants(NOI)
     P, Ct = eval_int(consts.get("NOISE_MAX_PAYLOAD")), eval_int(consts.get("NOISE_MAX_CIPHERTEXT"))
@@ -234,43 +357,7 @@ def r2(tree, rep):
     for cls, meth, K, subj_desc, op in (("_Record", "send_record", "NOISE_MAX_PAYLOAD", "plaintext", "encrypt"),
                                          ("_Record", "decrypt_message", "NOISE_MAX_CIPHERTEXT", "ciphertext", "decrypt")):
         fn = tree.func(CON, cls, meth)
-        # threshold test:  len(X) <= K   /  size <= K
-        ths = [n for n in ast.walk(fn) if isinstance(n, ast.If) and isinstance(n.test, ast.Compare) and isinstance(n.test.ops[0], ast.LtE)
-               and dotted(n.test.comparators[0]) == K]
-        loops = [n for n in ast.walk(fn) if isinstance(n, ast.While)]
-        ok = len(ths) == 1 and len(loops) == 1
-        if ok:
-            th, lp = ths[0], loops[0]
-            def len_arg(e):
-                if isinstance(e, ast.Name):
-                    e = expand_flow(fn, e, depth=1)
-                if isinstance(e, ast.Call) and dotted(e.func) == "len" and len(e.args) == 1:
-                    return e.args[0]
-                return None
-            whole = len_arg(th.test.left)
-            ok = whole is not None
-            # single packet branch: op(whole)
-            single = [c for s in th.body for c in ast.walk(s) if isinstance(c, ast.Call) and dotted(c.func) == "self._noise." + op]
-            ok = ok and len(single) == 1 and same_expr(single[0].args[0], whole)
-            # loop: while start < len(whole): chunk = whole[start:start+K]; acc += op(chunk); start += K
-            t = lp.test
-            okl = isinstance(t, ast.Compare) and isinstance(t.ops[0], ast.Lt) and isinstance(t.left, ast.Name)
-            if okl:
-                sv = t.left.id
-                bound = len_arg(t.comparators[0])
-                okl = bound is not None and same_expr(bound, whole)
-                sl = [x for x in ast.walk(lp) if isinstance(x, ast.Subscript) and slice_bounds(x)]
-                steps = [x for x in lp.body if isinstance(x, ast.AugAssign) and isinstance(x.target, ast.Name) and x.target.id == sv and isinstance(x.op, ast.Add)]
-                okl = okl and len(sl) == 1 and len(steps) == 1 and dotted(steps[0].value) == K
-                if okl:
-                    base, lo, hi = slice_bounds(sl[0])
-                    okl = same_expr(base, whole) and isinstance(lo, ast.Name) and lo.id == sv and isinstance(hi, ast.BinOp) and isinstance(hi.op, ast.Add) \
-                        and isinstance(hi.left, ast.Name) and hi.left.id == sv and dotted(hi.right) == K
-                ops = [c for c in ast.walk(lp) if isinstance(c, ast.Call) and dotted(c.func) == "self._noise." + op]
-                okl = okl and len(ops) == 1 and not any(isinstance(x, (ast.Break, ast.Continue, ast.Return, ast.If)) for x in ast.walk(lp))
-                inits = [x for x in ast.walk(fn) if isinstance(x, ast.Assign) and isinstance(x.targets[0], ast.Name) and x.targets[0].id == sv]
-                okl = okl and len(inits) == 1 and eval_int(inits[0].value) == 0
-            ok = ok and okl
+        ok = _chunking_ok(fn, K, op)
         rep.check("C12.R2", "%s.%s: a %s of at most %s is one Noise packet, a longer one is partitioned front to back into chunks of exactly %s"
                   % (cls, meth, subj_desc, K, K), ok, site(fn, CON), key="C12.R2:%s:chunking" % meth,
                   what="%s no longer partitions the %s into non-empty chunks of %s (boundary sizes would be lost or rejected)" % (meth, subj_desc, K))
@@ -295,26 +382,38 @@ def r3(tree, rep):
             and dotted(t[0].args[0].func) == "len" and dotted(t[0].args[0].args[0]) == f and dotted(t[1]) == f
     rep.check("C12.R3", "send_frame writes to_be4(len(frame)) + frame", ok, site(sf, CON), key="C12.R3:writer")
     pf = tree.func(CON, "_Framer", "parse_frame")
-    guards = [n.test.comparators[0] for n in ast.walk(pf) if isinstance(n, ast.If) and isinstance(n.test, ast.Compare) and isinstance(n.test.ops[0], ast.Lt)
-              and isinstance(n.test.left, ast.Call) and dotted(n.test.left.func) == "len" and is_self_attr(n.test.left.args[0], "_buffer")]
-    lens = [n for n in ast.walk(pf) if isinstance(n, ast.Assign) and isinstance(n.value, ast.Call) and dotted(n.value.func) == "from_be4"]
-    ok = len(guards) == 2 and len(lens) == 1
+    from ..cfg import ge_atom
+    from ..siblings import local_int_env
+    from ..astutil import resolve_local
+    env = local_int_env(pf)
+    ev = lambda e: eval_int(e, env) if e is not None else None
+    rl = lambda e: resolve_local(pf, e) if isinstance(e, ast.Name) and e.id not in env else e
+    lens = [n for n in ast.walk(pf) if isinstance(n, ast.Assign) and isinstance(n.value, ast.Call) and dotted(n.value.func) == "from_be4"
+            and isinstance(n.targets[0], ast.Name)]
+    ok = len(lens) == 1
     if ok:
         lv = lens[0].targets[0].id
         sb = slice_bounds(lens[0].value.args[0])
-        ok = sb is not None and is_self_attr(sb[0], "_buffer") and (eval_int(sb[1]) if sb[1] is not None else 0) == 0 and eval_int(sb[2]) == 4
+        ok = sb is not None and is_self_attr(sb[0], "_buffer") and (ev(sb[1]) if sb[1] is not None else 0) == 0 and ev(sb[2]) == 4
+
         def four_plus(e):
-            return isinstance(e, ast.BinOp) and isinstance(e.op, ast.Add) and eval_int(e.left) == 4 and isinstance(e.right, ast.Name) and e.right.id == lv
-        ok = ok and eval_int(guards[0]) == 4 and four_plus(guards[1])
+            e = rl(e)
+            return isinstance(e, ast.BinOp) and isinstance(e.op, ast.Add) and (
+                (ev(e.left) == 4 and isinstance(e.right, ast.Name) and e.right.id == lv)
+                or (ev(e.right) == 4 and isinstance(e.left, ast.Name) and e.left.id == lv))
+        is_buflen = lambda e: isinstance(e, ast.Call) and dotted(e.func) == "len" and len(e.args) == 1 and is_self_attr(e.args[0], "_buffer")
+        have_prefix = ge_atom(is_buflen, lambda e: ev(rl(e)) == 4)
+        have_frame = ge_atom(is_buflen, four_plus)
         sl = [slice_bounds(x) for x in ast.walk(pf) if isinstance(x, ast.Subscript) and is_self_attr(x.value, "_buffer") and slice_bounds(x)]
-        body = [s for s in sl if eval_int(s[1]) == 4 and s[2] is not None and four_plus(s[2])]
-        rest = [s for s in sl if s[1] is not None and four_plus(s[1]) and s[2] is None]
+        body = [x for x in sl if x[1] is not None and ev(rl(x[1])) == 4 and x[2] is not None and four_plus(x[2])]
+        rest = [x for x in sl if x[1] is not None and four_plus(x[1]) and x[2] is None]
         ok = ok and len(body) == 1 and len(rest) == 1
-        # nothing is returned before both guards passed
-        g = build(pf)
+        # nothing is yielded (and the length is not even read) before the bytes it needs are there
+        g = build(pf, split=True)
         fr = g.call_nodes(lambda c: dotted(c.func) == "Frame")
-        gt = [n for n in g.nodes(lambda s: isinstance(s, ast.If)) if isinstance(g.stmt[n].test, ast.Compare) and isinstance(g.stmt[n].test.ops[0], ast.Lt)]
-        ok = ok and len(fr) == 1 and all(g.branch_never_reaches(t, 'T', fr) for t in gt)
+        rd = [g.node_of(lens[0])]
+        ok = ok and len(fr) == 1 and bool(g.cond_edges(have_prefix, False)) and bool(g.cond_edges(have_frame, False)) \
+            and not g.only_when(fr, have_prefix, True) and not g.only_when(fr, have_frame, True) and not g.only_when(rd, have_prefix, True)
     rep.check("C12.R3", "parse_frame needs 4 bytes, reads from_be4 of them, needs 4+n, yields exactly buffer[4:4+n] and keeps the rest", ok,
               site(pf, CON), key="C12.R3:reader", what="frame reader and writer disagree on the length prefix / a partial frame can be delivered")
 
@@ -381,21 +480,35 @@ def r4(tree, rep):
 
 def r5(tree, rep):
     fn = tree.func(CTR, "Connector", "build_protocol")
-    ifs = [n for n in fn.body if isinstance(n, ast.If)]
-    ok = len(ifs) == 1
+    g = build(fn, split=True)
     tab = {}
-    if ok:
-        t = ifs[0].test
-        is_leader = isinstance(t, ast.Compare) and is_self_attr(t.left, "_role") and dotted(t.comparators[0]) == "LEADER" and isinstance(t.ops[0], (ast.Is, ast.Eq))
-        ok = is_leader
-        for role, body in (("leader", ifs[0].body), ("follower", ifs[0].orelse)):
-            d = {}
-            for s in body:
-                if isinstance(s, ast.Expr) and isinstance(s.value, ast.Call):
-                    d["noise"] = dotted(s.value.func)
-                elif isinstance(s, ast.Assign) and isinstance(s.targets[0], ast.Name):
-                    d[s.targets[0].id] = dotted(s.value)
-            tab[role] = d
+    ok = True
+    for role in ("leader", "follower"):
+        unknown = []
+
+        def oracle(t, role=role):
+            if isinstance(t, ast.Compare) and len(t.ops) == 1 and is_self_attr(t.left, "_role") and dotted(t.comparators[0]) in ("LEADER", "FOLLOWER") \
+                    and isinstance(t.ops[0], (ast.Is, ast.Eq, ast.IsNot, ast.NotEq)):
+                same = (dotted(t.comparators[0]) == "LEADER") == (role == "leader")
+                return same if isinstance(t.ops[0], (ast.Is, ast.Eq)) else (not same)
+            unknown.append(t)
+            return None
+        paths = [pp for pp in g.paths_under(oracle) if pp[1] == 'exit']
+        if unknown or len(paths) != 1:
+            ok = False
+            tab[role] = {}
+            continue
+        nodes = paths[0][0]
+        envp = g.path_env(nodes)
+        d = {}
+        for x in nodes:
+            st = g.stmt[x]
+            if isinstance(st, ast.Expr) and isinstance(st.value, ast.Call) and (dotted(st.value.func) or "").startswith("noise.set_as_"):
+                d["noise"] = dotted(st.value.func)
+        for k in ("outbound_prologue", "inbound_prologue"):
+            if k in envp:
+                d[k] = dotted(envp[k])
+        tab[role] = d
     L, F = tab.get("leader", {}), tab.get("follower", {})
     rep.check("C12.R5", "leader is the Noise initiator, follower the responder", ok and L.get("noise", "").endswith("set_as_initiator")
               and F.get("noise", "").endswith("set_as_responder"), site(fn, CTR), key="C12.R5:noise-role", what="roles: %s / %s" % (L.get("noise"), F.get("noise")))
